@@ -10,7 +10,7 @@ use zipora::compression::dict_zip::compression_types as ct;
 use zipora::compression::dict_zip::{
     decode_match, decode_matches, encode_match, encode_matches, BitReader, BitWriter, DictionaryBuilder,
     DictionaryBuilderConfig, Match, PaZipCompressor, PaZipCompressorConfig, SuffixArrayDictionary,
-    SuffixArrayDictionaryConfig,
+    SuffixArrayDictionaryConfig, CompressionStrategy, CompressionType, choose_best_compression_type,
 };
 use zipora::compression::{
     AdaptiveCompressor, AdaptiveConfig, Algorithm, CompressionMode, Compressor, CompressorFactory, DictCompressor,
@@ -454,7 +454,10 @@ fn adaptive_case(cx: &mut Ctx, steps: &[(u64, Vec<u8>)], aggressive: bool, min_o
         let cfg = AdaptiveConfig { min_operations: min_ops, evaluation_interval: 3, aggressive_learning: aggressive, learning_window: 16, ..Default::default() };
         let mut a = match AdaptiveCompressor::new(cfg, PerformanceRequirements::default()) { Ok(a) => a, Err(e) => return Some(format!("new failed: {}", e)) };
         for (i, (sw, d)) in steps.iter().enumerate() {
-            if *sw > 0 {
+            if *sw == 7 {
+                // CompressionProfile learning: must not disturb what compress/decompress do
+                if let Err(e) = a.train(&[(d.as_slice(), "text"), (TEXT, "other")]) { return Some(format!("step {}: train failed: {}", i, e)); }
+            } else if *sw > 0 {
                 if let Err(e) = a.set_algorithm(FRONT_ALGS[(*sw as usize - 1) % FRONT_ALGS.len()]) { return Some(format!("step {}: set_algorithm failed: {}", i, e)); }
             }
             let z = match a.compress(d) {
@@ -494,6 +497,26 @@ fn realtime_case(cx: &mut Ctx, mode: usize, fallback: bool, steps: &[(u64, u64, 
             let c = match RealtimeCompressor::new(cfg) { Ok(c) => c, Err(e) => return Some(format!("new failed: {}", e)) };
             for (i, (sw, dl, d)) in steps.iter().enumerate() {
                 if *sw > 0 { if let Err(e) = c.set_mode(MODES[(*sw as usize - 1) % 4].0) { return Some(format!("step {}: set_mode failed: {}", i, e)); } }
+                if *dl == 3 {
+                    let rev: Vec<u8> = d.iter().rev().cloned().collect();
+                    let items: Vec<&[u8]> = vec![d.as_slice(), rev.as_slice(), &d[..d.len() / 2]];
+                    match c.compress_batch(items.clone()).await {
+                        Err(zipora::error::ZiporaError::NotSupported { .. }) => continue,
+                        Err(_) if !fallback => continue,
+                        Err(e) => return Some(format!("step {}: compress_batch refused: {}", i, e)),
+                        Ok(zs) => {
+                            // the batch may stop early when its deadline passes; what it returns must decode
+                            for (j, z) in zs.iter().enumerate() {
+                                match c.decompress(z).await {
+                                    Ok(y) if y.as_slice() == items[j] => {}
+                                    Ok(y) => return Some(format!("step {}: batch item {} decodes to {} bytes, item has {}", i, j, y.len(), items[j].len())),
+                                    Err(e) => return Some(format!("step {}: batch item {}: decompress = Err({})", i, j, e)),
+                                }
+                            }
+                        }
+                    }
+                    continue;
+                }
                 let z = match dl {
                     0 => c.compress(d).await,
                     1 => c.compress_with_deadline(d, Instant::now()).await,
@@ -585,6 +608,74 @@ fn pazip_case(cx: &mut Ctx, pi: usize, dict_kind: u64, payloads: &[Vec<u8>], tra
     }
 }
 
+/// The record writer of the legacy byte format against `decompress`, for parses the match finders do
+/// not produce today (the local matcher is never fed, so `compress` emits Literal{1} and Global only).
+/// ops: [0, n] n fresh literal bytes (one Literal record per <= 200 bytes); [1, n] a local match of length n
+/// at distance `period`; [2, off, n] a global match dict[off..off+n].  The payload is what the parse describes.
+fn legacy_records_case(cx: &mut Ctx, period: usize, seed: u64, ops: &[Vec<u64>]) {
+    let cell = "pazip/legacy_records";
+    cx.sum.cell_status(cell, "S-only");
+    let cj = json!({"cell": cell, "period": period, "seed": seed, "ops": ops});
+    cx.sum.eval(cell, &format!("lr {} {} {:?}", period, seed, ops), ops.len() >= 2);
+    let mut r = Rng::new(seed ^ 0xC02);
+    let dict_text: Vec<u8> = { let mut t = TEXT.to_vec(); t.extend(r.bytes(200)); t };
+    let mut x: Vec<u8> = r.bytes(period.max(1));
+    // (pos, strategy) list; the first `period` bytes are literals
+    let mut parse: Vec<(usize, CompressionStrategy)> = vec![];
+    let mut pos = 0usize;
+    while pos < x.len() { let n = (x.len() - pos).min(200); parse.push((pos, CompressionStrategy::Literal { length: n as u8 })); pos += n; }
+    let mut kinds_used = vec![];
+    for op in ops {
+        let kind = op.get(0).copied().unwrap_or(0);
+        match kind {
+            0 => {
+                let mut n = op.get(1).copied().unwrap_or(1).min(1000) as usize;
+                while n > 0 { let c = n.min(200); let fresh = r.bytes(c); parse.push((x.len(), CompressionStrategy::Literal { length: c as u8 })); x.extend_from_slice(&fresh); n -= c; }
+            }
+            1 => {
+                let n = op.get(1).copied().unwrap_or(2).clamp(1, 2000) as usize;
+                let d = period.max(1);
+                let mt = match choose_best_compression_type(d, n) { Some(t) => t, None => continue };
+                kinds_used.push(mt as u8);
+                parse.push((x.len(), CompressionStrategy::Local { distance: d as u32, length: n as u32, match_type: mt }));
+                for _ in 0..n { let b = x[x.len() - d]; x.push(b); }
+            }
+            _ => {
+                let off = (op.get(1).copied().unwrap_or(0) as usize).min(dict_text.len() - 1);
+                let n = (op.get(2).copied().unwrap_or(6) as usize).clamp(1, dict_text.len() - off);
+                parse.push((x.len(), CompressionStrategy::Global { dict_offset: off as u32, length: n as u32, match_type: CompressionType::Global }));
+                x.extend_from_slice(&dict_text[off..off + n]);
+            }
+        }
+    }
+    for k in kinds_used { cx.sum.dist(&format!("legacy_record_kind={}", k)); }
+    let res = guarded(|| {
+        let dict = SuffixArrayDictionary::new(&dict_text, SuffixArrayDictionaryConfig::default()).map_err(|e| format!("setup: {}", e))?;
+        if dict.dictionary_text() != &dict_text[..] { return Err("setup: dictionary text differs from training".to_string()); }
+        let pool = SecureMemoryPool::new(SecurePoolConfig::new(4096, 1024, 8)).map_err(|e| format!("setup: {}", e))?;
+        let mut c = PaZipCompressor::new(dict, PaZipCompressorConfig::default(), pool).map_err(|e| format!("setup: {}", e))?;
+        let mut stream = Vec::new();
+        for (p, st) in &parse {
+            let want = match st { CompressionStrategy::Literal { length } => *length as usize, CompressionStrategy::Local { length, .. } => *length as usize, CompressionStrategy::Global { length, .. } => *length as usize };
+            let adv = c.verif_apply_strategy(&x, *p, *st, &mut stream).map_err(|e| format!("writer refused {:?}: {}", st, e))?;
+            if adv != want { return Ok(Some(format!("writer advanced {} for {:?}", adv, st))); }
+        }
+        let mut y = Vec::new();
+        match c.decompress(&stream, &mut y) {
+            Ok(()) if y == x => Ok(None),
+            Ok(()) => { let at = y.iter().zip(x.iter()).position(|(a, b)| a != b).unwrap_or(y.len().min(x.len())); Ok(Some(format!("decompress of the record stream differs at byte {} (|x|={}, |y|={})", at, x.len(), y.len()))) }
+            Err(e) => Ok(Some(format!("decompress of the record stream = Err({})", e))),
+        }
+    });
+    match res {
+        Err(p) => cx.sum.fail(cell, None, cj, &format!("panicked: {}", p)),
+        Ok(Err(e)) if e.starts_with("setup") => cx.sum.dist("legacy_setup_refused"),
+        Ok(Err(e)) => cx.sum.fail(cell, None, cj, &e),
+        Ok(Ok(Some(msg))) => cx.sum.fail(cell, None, cj, &msg),
+        Ok(Ok(None)) => {}
+    }
+}
+
 fn simd_lz77_case(cx: &mut Ctx, x: &[u8]) {
     let cell = "simd_lz77/inherent";
     cx.sum.cell_status(cell, "S-only");
@@ -633,6 +724,10 @@ fn run_one(cx: &mut Ctx, c: &Value) {
             pazip_case(cx, c["preset"].as_u64().unwrap_or(0) as usize, c["dict_kind"].as_u64().unwrap_or(0), &ps, &bytes_of(&c["train"]))
         }
         "simd_lz77/inherent" => simd_lz77_case(cx, &bytes_of(&c["data"])),
+        "pazip/legacy_records" => {
+            let ops: Vec<Vec<u64>> = c["ops"].as_array().map(|a| a.iter().map(|o| o.as_array().map(|v| v.iter().map(|x| x.as_u64().unwrap_or(0)).collect()).unwrap_or_default()).collect()).unwrap_or_default();
+            legacy_records_case(cx, c["period"].as_u64().unwrap_or(1) as usize, c["seed"].as_u64().unwrap_or(0), &ops)
+        }
         _ => {}
     }
 }
@@ -784,7 +879,7 @@ pub fn run(args: &Args) {
     for k in 0..(if th { 400 } else { 40 }) {
         let mut r = cx.rng.clone();
         let n = if k % 8 == 0 { r.range(60, 130) } else { r.range(1, 8) } as usize;
-        let mut steps: Vec<(u64, Vec<u8>)> = (0..n).map(|_| (if r.chance(1, 4) { r.range(1, 6) } else { 0 }, rand_payload(&mut r))).collect();
+        let mut steps: Vec<(u64, Vec<u8>)> = (0..n).map(|_| (if r.chance(1, 4) { r.range(1, 7) } else { 0 }, rand_payload(&mut r))).collect();
         // the initial algorithm is Lz4, which the default build does not contain: usually start with a switch
         if r.chance(3, 4) { steps[0].0 = *r.pick(&[1u64, 3, 4, 5, 6]); }
         let aggressive = r.chance(1, 2);
@@ -797,7 +892,7 @@ pub fn run(args: &Args) {
         let n = r.range(1, 6) as usize;
         let steps: Vec<(u64, u64, Vec<u8>)> = (0..n).map(|_| {
             let d = if r.chance(1, 2) { let fam = r.below(10); let l = *r.pick(&[0usize, 1, 10, 63, 64, 65, 200]); payload(&mut r, fam, l) } else { rand_payload(&mut r) };
-            (if r.chance(1, 5) { r.range(1, 4) } else { 0 }, r.below(3), d)
+            (if r.chance(1, 5) { r.range(1, 4) } else { 0 }, r.below(4), d)
         }).collect();
         let fb = !r.chance(1, 4);
         cx.rng = r;
@@ -816,6 +911,25 @@ pub fn run(args: &Args) {
         let dk = r.below(3);
         cx.rng = r;
         pazip_case(&mut cx, k % 6, dk, &ps, &t);
+    }
+    // record writer vs reader of the legacy byte format, every kind at its distance / length boundaries
+    let periods = [1usize, 2, 3, 9, 10, 200, 257, 258, 259, 4000, 65535, 65536, 65793, 65794, 70000];
+    let lens = [1u64, 2, 3, 5, 6, 32, 33, 34, 35, 64, 65, 255, 256, 257, 300];
+    for (pi, &p) in periods.iter().enumerate() {
+        if !th && p > 60000 && pi % 2 == 0 { continue; }
+        for rep in 0..(if th { 6 } else { 2 }) {
+            let mut r = cx.rng.clone();
+            let n = r.range(1, 6) as usize;
+            let ops: Vec<Vec<u64>> = (0..n).map(|_| match r.below(6) {
+                0 => vec![0, r.range(1, 300)],
+                1 => vec![2, r.below(300), r.range(1, 280)],
+                _ => vec![1, if r.chance(2, 3) { *r.pick(&lens) } else { r.range(1, 400) }],
+            }).collect();
+            let seed = r.next() % 1000;
+            cx.rng = r;
+            if rep == 0 { legacy_records_case(&mut cx, p, seed, &[vec![1, lens[pi % lens.len()]]]); }
+            legacy_records_case(&mut cx, p, seed, &ops);
+        }
     }
     // a dictionary larger than 64 KiB (offsets beyond u16), payload cut from its tail; and an input
     // beyond the multithreading threshold
